@@ -143,6 +143,25 @@ func QuoteName(key string, q Notation, mode int) string {
 	return sb.String()
 }
 
+func isIntegerText(s string) bool {
+	if s == "" {
+		return false
+	}
+	i := 0
+	if s[0] == '-' || s[0] == '+' {
+		i = 1
+	}
+	if i == len(s) {
+		return false
+	}
+	for ; i < len(s); i++ {
+		if s[i] < '0' || s[i] > '9' {
+			return false
+		}
+	}
+	return true
+}
+
 func writeU(sb *strings.Builder, c rune) {
 	if c >= 0x10000 {
 		c -= 0x10000
@@ -369,7 +388,23 @@ func (r *renderer) operandPath(p *Path) {
 func (r *renderer) lit(o *Operand) {
 	switch o.LK {
 	case LNum:
-		r.sb.WriteString(o.Num)
+		num := o.Num
+		if r.st.Vary() && isIntegerText(num) {
+			// an explicit "+" sign or leading zeros on an integer change nothing
+			switch r.st.Pick("numspelling", 4) {
+			case 1:
+				if num[0] != '-' && num[0] != '+' {
+					num = "+" + num
+				}
+			case 2:
+				sign := ""
+				if num[0] == '-' || num[0] == '+' {
+					sign, num = num[:1], num[1:]
+				}
+				num = sign + "00" + num
+			}
+		}
+		r.sb.WriteString(num)
 	case LStr:
 		q := byte('"')
 		if o.SQ {
